@@ -8,6 +8,7 @@ PRELUDE = """    #[diplomat::opaque]
     pub struct OutS { pub a: u8 }
     pub enum En { A, B }
     pub trait Tr { fn cb(&self, x: u8) -> u8; }
+    pub trait Tr2 { fn first(&self, x: u32); fn bytes(&self, s: &[u8]) -> u8; fn both(&self, s: Strct, e: En) -> En; fn last(&self); }
 """
 
 
